@@ -150,10 +150,18 @@ func (p *Parser) ParseConditionalExpression() *ConditionalExpression {
 		return stmt
 	}
 
+	parsed := 0
+
 	for p.curToken.Type != EOF {
 		stmt.Expression = p.parseExpression(precedenceValueLowset)
+		parsed++
 
 		p.nextToken()
+	}
+
+	if parsed > 1 && len(p.errors) == 0 {
+		// a condition is one expression: juxtaposed expressions are not a sentence of the grammar
+		p.errors = append(p.errors, fmt.Sprintf("Syntax error; %d expressions where one is expected", parsed))
 	}
 
 	return stmt
